@@ -285,7 +285,9 @@ class HeadFormula(Formula):
         """
         Return the unique string representaiton of the formula.
         """
-        return ("head", self.__timestep, self.__formula._rep)
+        # different theory atoms can have the same formula (e.g. `a ;> b` and
+        # `a & > b`); the literals keep their entries in the todo list apart
+        return ("head", self.__timestep, self.__formula._rep, tuple(self.__literals))
 
     def translate(self, ctx, step):
         """
